@@ -191,7 +191,11 @@ class Context(DataProxy):
         prompt = self.config.sudo.prompt
         password = kwargs.pop("password", self.config.sudo.password)
         user = kwargs.pop("user", self.config.sudo.user)
-        env = kwargs.get("env", {})
+        # Effective env: per-call value if given, else the configured one
+        # (which is what the runner will end up using too.)
+        env = kwargs.get("env")
+        if env is None:
+            env = self.config.run.env
         # TODO: allow subclassing for 'get the password' so users who REALLY
         # want lazy runtime prompting can have it easily implemented.
         # TODO: want to print a "cleaner" echo with just 'sudo <command>'; but
